@@ -1,3 +1,5 @@
+//go:build verif
+
 // Package simnet provides in-memory net.Listener / net.Conn / net.PacketConn whose every method is a
 // scheduling point of vsched and which never block for real. Deadlines: a deadline before the harness
 // start time (the server's aLongTimeAgo) is "expired", anything later is "pending" and only fires when the
@@ -206,6 +208,7 @@ func (c *Conn) Close() error {
 	return nil
 }
 
+func (c *Conn) String() string       { return c.Name }
 func (c *Conn) LocalAddr() net.Addr  { return c.local }
 func (c *Conn) RemoteAddr() net.Addr { return c.remote }
 func (c *Conn) SetDeadline(t time.Time) error {
@@ -242,6 +245,7 @@ type Listener struct {
 	queue  []*Conn
 	Closed bool
 	Accepted, Closes int
+	Conns  []*Conn // server ends handed out by Accept
 }
 
 func NewListener(name string) *Listener { return &Listener{Name: name} }
@@ -267,6 +271,7 @@ func (l *Listener) Accept() (net.Conn, error) {
 	s := l.queue[0]
 	l.queue = l.queue[1:]
 	l.Accepted++
+	l.Conns = append(l.Conns, s)
 	return s, nil
 }
 
@@ -277,6 +282,12 @@ func (l *Listener) Close() error {
 		return net.ErrClosed
 	}
 	l.Closed = true
+	// connections that were queued but never accepted are reset, as a kernel does
+	for _, s := range l.queue {
+		s.Closed = true
+		vsched.Release(s.wr)
+		s.wr.closed = true
+	}
 	return nil
 }
 func (l *Listener) Addr() net.Addr { return Addr("server") }
